@@ -171,7 +171,7 @@ func runC14(c *Ctx) {
 				lookups++
 				switch e.key {
 				case "param":
-					if key != ssa.Value(f.Params[1]) {
+					if key != ssa.Value(param(f, 1)) {
 						okKey = false
 					}
 				case "prefix-target":
